@@ -38,7 +38,25 @@ def targeted(rng):
     names = rng.sample(ge.NAMES, 5)
     a, b, c, d, e = names
     v = lambda n, star=None, ivs=(): [n, star, [list(i) for i in ivs]]  # noqa: E731
-    k = rng.randrange(16)
+    k = rng.randrange(19)
+    if k >= 16:  # one name in several worlds inside ONE probability, some worlds with two or three joint subscripts
+        def world(pool):
+            return [[x, rng.random() < 0.3] for x in rng.sample(pool, rng.choice([1, 2, 2, 3]))]
+
+        pool = [b, c, d, e]
+        ch = [v(a, rng.choice([None, None, True, False]), world(pool)) for _ in range(rng.choice([2, 2, 3]))]
+        seen, uniq = set(), []
+        for x in ch:
+            key = (x[1], tuple(sorted(map(tuple, x[2]))))
+            if key not in seen:
+                seen.add(key)
+                uniq.append(x)
+        pa = [v(b)] if rng.random() < 0.4 and all(b not in [i[0] for i in x[2]] for x in uniq) else []
+        if k == 16:
+            return ["P", None, uniq, pa]
+        if k == 17 and len(uniq) >= 2:
+            return ["P", None, [v(c)] if all(c not in [i[0] for i in x[2]] for x in uniq) else [v(a)], uniq]
+        return ["prod", [["P", None, uniq, pa], ["P", None, [v(e)], []]]]
     if k >= 14:  # compound fractions over multisets of a few atoms (repeated factors on both sides)
         atoms = [["P", None, [v(a)], []], ["P", None, [v(b)], [v(a)]], ["P", None, [v(c)], []], ["P", None, [v(d)], []]]
         return ge.rand_repeated_fraction(rng, atoms[: rng.choice([2, 3, 4])])
